@@ -164,10 +164,18 @@ pub fn replay_check(id: &'static str, c: bool) {
 #[macro_export]
 macro_rules! vcheck {
     ($id:literal, $c:expr) => {{
-        #[cfg(kani)]
-        kani::assert($c, $id);
-        #[cfg(all(verif_replay, not(kani)))]
-        $crate::verif_support::replay_check($id, $c);
+        // Kani's assert is assert-then-assume: after a failing obligation the inputs that fail it are cut from
+        // every later obligation of the harness, so a second obligation violated by the same inputs would be
+        // reported as holding (seen with seed C17-merge-with-int-modulus-counter: the C16 obligation before it
+        // masked the C17 one). Each obligation is therefore asserted under its own nondeterministic guard: the
+        // assumption only binds the guarded branch and the obligations are decided independently.
+        let verif_cond: bool = $c;
+        if $crate::verif_support::any_bool() {
+            #[cfg(kani)]
+            kani::assert(verif_cond, $id);
+            #[cfg(all(verif_replay, not(kani)))]
+            $crate::verif_support::replay_check($id, verif_cond);
+        }
     }};
 }
 
